@@ -137,6 +137,7 @@ struct Exchange {
 }
 
 struct Outcome {
+    held_rounds: u64,
     rounds: u64,
     fixpoint: bool,
     why: Vec<(String, String)>, // (property, text)
@@ -150,7 +151,7 @@ struct Outcome {
 /// point where the model's exchange reads the peer's state; the model's finer steps of that exchange are skipped.
 /// This is the behaviour in which the exchange's steps are contiguous, so the same final expectation applies.
 async fn run_behaviour(rig: &Rig, b: &Value, idx: u64, f: u64, coarse: bool, tracked: bool) -> Outcome {
-    let mut out = Outcome { rounds: 0, fixpoint: false, why: vec![], drift: vec![], reads: Value::Null, tool_error: None };
+    let mut out = Outcome { held_rounds: 0, rounds: 0, fixpoint: false, why: vec![], drift: vec![], reads: Value::Null, tool_error: None };
     let mut coarse_done: std::collections::BTreeSet<(u64, u64)> = Default::default();
     let mut trackers: BTreeMap<u64, repair::Tracker> = rig.nodes.keys().map(|n| (*n, repair::Tracker::default())).collect();
     let ks = format!("b{}", idx);
@@ -162,12 +163,70 @@ async fn run_behaviour(rig: &Rig, b: &Value, idx: u64, f: u64, coarse: bool, tra
     let mut exch: BTreeMap<(u64, u64), Exchange> = BTreeMap::new();
     let steps = b["hist"].as_array().unwrap();
     let driver_client = |to: &NodeRig| RpcClient::<Cs>::new(rig.driver_net.get_or_connect(to.addr));
+    // tracked mode, split GetState: a real poller round that is held inside the peer's GetState handler, between the
+    // handler's reading of the change stamp and its serializing of the state
+    let mut held: BTreeMap<(u64, u64), (datacake_eventual_consistency::verif::GetStatePause, tokio::task::JoinHandle<repair::Tracker>)> = BTreeMap::new();
     let mut i = 0;
     while i < steps.len() {
         let s = &steps[i];
         i += 1;
         let a = s["a"].as_str().unwrap();
+        // outside tracked mode the two steps of a split GetState are executed as one, where the state is taken
+        let a = match a {
+            "readstamp" if !tracked => {
+                // (the clocks of the two nodes meet here, as they do when the real poller asks for the keyspace stamps)
+                let (n, p) = (s["n"].as_u64().unwrap(), s["p"].as_u64().unwrap());
+                let me = &rig.nodes[&n];
+                let mut client = ReplicationClient::<MemStore>::new(me.clock.clone(), me.network.get_or_connect(rig.nodes[&p].addr));
+                let _ = client.poll_keyspace().await;
+                continue;
+            },
+            "takestate" if !tracked => "getstate",
+            other => other,
+        };
+        // a node whose poller round is being held takes no part in another exchange before that round is over
+        if tracked && matches!(a, "readstamp" | "getstate") {
+            let n = s["n"].as_u64().unwrap();
+            let keys: Vec<(u64, u64)> = held.keys().filter(|k| k.0 == n).cloned().collect();
+            for k in keys {
+                let (pause, task) = held.remove(&k).unwrap();
+                pause.release();
+                trackers.insert(k.0, task.await.expect("poller round"));
+            }
+        }
         match a {
+            "readstamp" => {
+                let (n, p) = (s["n"].as_u64().unwrap(), s["p"].as_u64().unwrap());
+                let me = &rig.nodes[&n];
+                let peer = &rig.nodes[&p];
+                let mut members = BTreeMap::new();
+                members.insert(peer.id, peer.addr);
+                let pause = datacake_eventual_consistency::verif::arm_getstate_pause(&ks);
+                let (group, network) = (me.grp(), me.network.clone());
+                let mut tracker = trackers.remove(&n).expect("the node's tracker");
+                let mut task = tokio::spawn(async move {
+                    repair::repair_round_tracked(&group, &network, &members, &mut tracker).await;
+                    tracker
+                });
+                tokio::select! {
+                    _ = pause.reached() => {
+                        out.held_rounds += 1;
+                        held.insert((n, p), (pause, task));
+                    },
+                    t = &mut task => {
+                        // the tracker said nothing changed (or the peer holds no such keyspace yet): no GetState was sent
+                        pause.release();
+                        trackers.insert(n, t.expect("poller round"));
+                    },
+                }
+            },
+            "takestate" => {
+                let (n, p) = (s["n"].as_u64().unwrap(), s["p"].as_u64().unwrap());
+                if let Some((pause, task)) = held.remove(&(n, p)) {
+                    pause.release();
+                    trackers.insert(n, task.await.expect("poller round"));
+                }
+            },
             "issue" => {
                 let n = &rig.nodes[&s["n"].as_u64().unwrap()];
                 let t = s["t"].as_u64().unwrap();
@@ -428,6 +487,12 @@ async fn run_behaviour(rig: &Rig, b: &Value, idx: u64, f: u64, coarse: bool, tra
                 *n.group.lock() = group;
                 // the node's own repair exchanges died with it, and so did its poller's tracker
                 let nid = s["n"].as_u64().unwrap();
+                let keys: Vec<(u64, u64)> = held.keys().filter(|k| k.0 == nid).cloned().collect();
+                for k in keys {
+                    let (pause, task) = held.remove(&k).unwrap();
+                    pause.release();
+                    let _ = task.await;
+                }
                 trackers.insert(nid, repair::Tracker::default());
                 exch.retain(|k, _| k.0 != nid);
             },
@@ -435,6 +500,10 @@ async fn run_behaviour(rig: &Rig, b: &Value, idx: u64, f: u64, coarse: bool, tra
         }
     }
 
+    for ((n, _), (pause, task)) in std::mem::take(&mut held) {
+        pause.release();
+        trackers.insert(n, task.await.expect("poller round"));
+    }
     if tracked {
         // Everything has been issued and delivered (or lost). Now every node runs the body of the real poller loop
         // (repair_members with its own keyspace tracker) against all other nodes, round after round, until a whole
@@ -546,6 +615,7 @@ pub async fn replay() {
     let tick_ms: u64 = arg_or("--sync-tick-ms", "2").parse().unwrap();
     datacake_eventual_consistency::verif::set_sync_tick(Duration::from_millis(tick_ms));
     let (mut rounds_total, mut fixpoints) = (0u64, 0u64);
+    let mut held_total = 0u64;
     let slice: Vec<usize> = arg_or("--slice", "0/1").split('/').map(|x| x.parse().unwrap()).collect();
     let ids: Vec<u64> = arg_or("--nodes", "1,2").split(',').map(|x| x.parse().unwrap()).collect();
     let mut behaviours: Vec<Value> = vec![];
@@ -579,6 +649,7 @@ pub async fn replay() {
         }
         let o = run_behaviour(&rig, b, in_rig, f, coarse, tracked).await;
         rounds_total += o.rounds;
+        held_total += o.held_rounds;
         fixpoints += o.fixpoint as u64;
         if let Some(e) = o.tool_error {
             eprintln!("tool error in behaviour {idx}: {e}");
@@ -605,6 +676,7 @@ pub async fn replay() {
     sum.set("steps", steps_total);
     sum.set("step_kinds", json!(kinds));
     sum.set("poller_rounds", rounds_total);
+    sum.set("poller_rounds_held_inside_getstate", held_total);
     sum.set("poller_fixpoints", fixpoints);
     sum.write(&out_path);
 }
